@@ -90,11 +90,13 @@ pub enum Res {
     /// register succeeded: instance registered, whether an old entry was handed back
     Registered { new: u16, replaced: bool },
     Panicked,
+    /// the client gave the operation up before it completed (its future was dropped)
+    Abandoned,
 }
 
 impl Res {
     pub fn is_ok(&self) -> bool {
-        !matches!(self, Res::Err(_) | Res::None | Res::Panicked)
+        !matches!(self, Res::Err(_) | Res::None | Res::Panicked | Res::Abandoned)
     }
 }
 
@@ -108,6 +110,7 @@ pub enum CtxOp {
     Subscribe,
     Publish,
     PeerCall,
+    Lookup,
 }
 
 #[derive(Clone, Copy, Debug, PartialEq, Eq, Hash)]
@@ -156,6 +159,9 @@ pub struct Work {
     pub yields: u8,
     pub sleep: u32,
     pub panic: bool,
+    /// wait the `sleep` ticks as that many separate one-tick waits (the handler is woken and
+    /// polled in between) instead of one long wait
+    pub split: bool,
 }
 
 #[derive(Clone, Copy, Debug, PartialEq, Eq)]
@@ -178,6 +184,8 @@ pub enum Action {
     UpWeakCaller,
     /// call the actor stored under `key` with Ask(id)
     PeerCall { key: u8, id: u32 },
+    /// look up (and thereby spawn on demand) the service `Probe<k>` (k = 1 or 2) and call it
+    LookupService { k: u8 },
 }
 
 #[derive(Clone, Debug)]
@@ -193,6 +201,8 @@ pub struct RoleCfg {
     /// virtual time `stopped()` takes
     pub stopped_sleep: u32,
     pub stopped_panic: bool,
+    /// context operations performed in `stopped` (after its simulated duration)
+    pub stopped_actions: Vec<Action>,
     /// per message id
     pub work: Vec<(u32, Work)>,
     pub default_work: Work,
@@ -212,6 +222,7 @@ impl Default for RoleCfg {
             stopped_yields: 0,
             stopped_sleep: 0,
             stopped_panic: false,
+            stopped_actions: vec![],
             work: vec![],
             default_work: Work::default(),
             tick_work: Work::default(),
@@ -406,7 +417,11 @@ async fn do_work(w: Work) {
     for _ in 0..w.yields {
         vexec::yield_now().await;
     }
-    if w.sleep > 0 {
+    if w.split {
+        for _ in 0..w.sleep {
+            sleep(1).await;
+        }
+    } else if w.sleep > 0 {
         sleep(w.sleep).await;
     }
     if w.panic {
@@ -676,6 +691,14 @@ impl<const K: u8> Probe<K> {
                     ctxlog(CtxOp::PeerCall, r.is_ok());
                 }
             }
+            Action::LookupService { k } => {
+                let ok = if k == 1 {
+                    Probe::<1>::from_registry().await.call(Ask(9001)).await.is_ok()
+                } else {
+                    Probe::<2>::from_registry().await.call(Ask(9001)).await.is_ok()
+                };
+                ctxlog(CtxOp::Lookup, ok);
+            }
         }
     }
 }
@@ -729,11 +752,11 @@ impl<const K: u8> Actor for Probe<K> {
         Ok(())
     }
 
-    async fn stopped(&mut self, _ctx: &mut Context<Self>) {
-        let (yields, panic, stop_sleep) = W.with(|w| {
+    async fn stopped(&mut self, ctx: &mut Context<Self>) {
+        let (yields, panic, stop_sleep, actions) = W.with(|w| {
             let w = w.borrow();
             let rc = &w.roles[self.role as usize];
-            (rc.stopped_yields, rc.stopped_panic, rc.stopped_sleep)
+            (rc.stopped_yields, rc.stopped_panic, rc.stopped_sleep, rc.stopped_actions.clone())
         });
         self.enter(Cb::Stopped);
         for _ in 0..yields {
@@ -741,6 +764,9 @@ impl<const K: u8> Actor for Probe<K> {
         }
         if stop_sleep > 0 {
             sleep(stop_sleep).await;
+        }
+        for a in actions {
+            self.act(ctx, a).await;
         }
         if panic {
             std::panic::panic_any(Injected);
